@@ -9,7 +9,7 @@ From J5V.model Require Import J5sValidDecl J5sComments J5sEntity J5sRefSpec J5sA
 From J5V.gen Require ImportsGen.
 From J5V.model Require RulesDecl RulesWrite.
 From Coq Require Import ZArith.
-From J5V.proofs Require Import J5sProofs J5sContractProofs J5sLinkProofs J5sResolveProofs J5sResolveCompleteProofs J5sServiceProofs J5sTotalProofs J5sSymbolProofs J5sCompileProofs J5sSubPkgProofs J5sDepsProofs J5sNameProofs J5sTypeNameProofs J5sWitnessProofs StrcaseProofs J5sStrcaseProofs J5sInfraProofs J5sRefSpecProofs J5sRulesCompose J5sEntityProofs J5sCommentsProofs J5sValidDeclProofs J5sInfraDepsProofs.
+From J5V.proofs Require Import J5sProofs J5sContractProofs J5sLinkProofs J5sResolveProofs J5sResolveCompleteProofs J5sServiceProofs J5sTotalProofs J5sSymbolProofs J5sCompileProofs J5sSubPkgProofs J5sDepsProofs J5sNameProofs J5sTypeNameProofs J5sWitnessProofs J5sFullProofs StrcaseProofs J5sStrcaseProofs J5sInfraProofs J5sRefSpecProofs J5sRulesCompose J5sEntityProofs J5sCommentsProofs J5sValidDeclProofs J5sInfraDepsProofs.
 Import ListNotations.
 Local Open Scope N_scope.
 
@@ -226,29 +226,29 @@ Theorem C02_symbol_table_is_declared : forall snake camel screaming bd pkg fs,
 Proof. exact package_symbols_declared. Qed.
 Print Assumptions C02_symbol_table_is_declared.
 
-(* ... and for the compiled main files of a valid bundle (files in package directories): the
+(* ... and for the compiled main files of a valid bundle: the
    list of (field, type name) pairs of the linked descriptor - every field of every message at
    every depth - is the declared one (J5sTypeNames): a scalar with a message representation
    names its well-known type, a reference .<package>.<Name> of the declaration it resolves to, an
    inline object / oneof / enum .<package>.<Root>.<Path>.<Name> nested under the message of the
    field, a map field its entry message, the entry's value field the item type *)
 Theorem C02_field_type_names : forall bd pkg D,
-  valid bd = true -> (forall x, In x bd -> bfile_pkg x <> []) -> compile bd pkg = Ok D ->
+  valid bd = true -> compile bd pkg = Ok D ->
   forall f im, In (BJ f) bd -> j5s_pkg f = pkg -> import_map (jf_imports f) [] = Ok im ->
   exists df, In df D /\
     main_types_ok to_snake to_camel (mkEnv (j5s_pkg f) im (pkg_exports to_camel bd)) f df.
-Proof. exact (compile_tnames to_snake to_camel to_screaming_snake to_camel_nodot to_snake_nodot). Qed.
+Proof. exact compile_tnames_valid. Qed.
 Print Assumptions C02_field_type_names.
 
 (* the same for the request / response / topic messages: the .service and .topic files *)
 Theorem C02_field_type_names_subpackages : forall bd pkg D,
-  valid bd = true -> (forall x, In x bd -> bfile_pkg x <> []) -> compile bd pkg = Ok D ->
+  valid bd = true -> compile bd pkg = Ok D ->
   forall f im, In (BJ f) bd -> j5s_pkg f = pkg -> import_map (jf_imports f) [] = Ok im ->
   (file_services f <> [] ->
      exists df, In df D /\ service_types_ok to_snake to_camel (mkEnv (j5s_pkg f) im (pkg_exports to_camel bd)) f df) /\
   (file_topics f <> [] ->
      exists df, In df D /\ topic_types_ok to_snake to_camel (mkEnv (j5s_pkg f) im (pkg_exports to_camel bd)) f df).
-Proof. exact (compile_sub_tnames to_snake to_camel to_screaming_snake to_camel_nodot to_snake_nodot). Qed.
+Proof. exact compile_sub_tnames_valid. Qed.
 Print Assumptions C02_field_type_names_subpackages.
 
 (* what the declared list looks like: object Foo { field x object { field q string }
@@ -296,18 +296,29 @@ Print Assumptions C02_valid_packages_compile.
    [valid] (J5sCorr: J5sValid.valid_bundle with the byte-exact strcase functions) = the
    documented restrictions plus: no two declarations of a package generate the same proto
    symbol; every run compares it with acceptance by the real compiler.
-   Not part of package_contract_full: which type a message / enum field names (C02_references_*,
-   C02_inline_type_name, C02_map_entry_type_name are statements on the converter functions) and
-   the dependency lists. *)
+   J5sFullProofs.package_complete = that structural contract (package_contract_full) AND, per
+   source file, the (field, type name) list of the linked main / .service / .topic file - every
+   field at every depth - is the declared one (references resolve to the declared type), AND
+   every reference resolves with its defining file the generated file or one of its dependencies,
+   AND every dependency of a generated file is an infrastructure file or the defining file of a
+   reference written in the declarations that go to it, AND the infrastructure files the
+   declarations need are imported: ONE conclusion for every valid bundle. *)
 Definition C02_full_statement : Prop :=
   forall bd pkg, valid bd = true -> (exists f, In f bd /\ bfile_pkg f = pkg) ->
-    exists D, compile bd pkg = Ok D /\ package_contract_full to_snake to_camel to_screaming_snake bd pkg D.
+    exists D, compile bd pkg = Ok D /\ package_complete bd pkg D.
 
 (* PROVED for the model, for every valid bundle (until fix a65e1f2 the statement was refuted by
    `enum Status { option OLD_UNSPECIFIED  option ACTIVE }`: see C02_fixed_named_zero) *)
 Theorem C02_full : C02_full_statement.
-Proof. exact (compile_correct_full to_snake to_camel to_screaming_snake). Qed.
+Proof. exact compile_complete. Qed.
 Print Assumptions C02_full.
+
+(* its first conjunct on its own: the structural contract *)
+Theorem C02_structural_contract :
+  forall bd pkg, valid bd = true -> (exists f, In f bd /\ bfile_pkg f = pkg) ->
+    exists D, compile bd pkg = Ok D /\ package_contract_full to_snake to_camel to_screaming_snake bd pkg D.
+Proof. exact (compile_correct_full to_snake to_camel to_screaming_snake). Qed.
+Print Assumptions C02_structural_contract.
 
 (* regression (fix a65e1f2, conversion.go visitEnumNode / enum.go isExplicitZero): a FIRST option
    ending in UNSPECIFIED under a name of its own used to be taken as the zero value
@@ -443,7 +454,7 @@ Print Assumptions C02_infrastructure_reaches_dependencies.
 Theorem C02_full_declarative :
   forall bd pkg, valid_decl to_snake to_camel to_screaming_snake bd ->
     (exists f, In f bd /\ bfile_pkg f = pkg) ->
-    exists D, compile bd pkg = Ok D /\ package_contract_full to_snake to_camel to_screaming_snake bd pkg D.
+    exists D, compile bd pkg = Ok D /\ package_complete bd pkg D.
 Proof.
   intros bd pkg Hv. apply C02_full. apply C02_valid_declarative. exact Hv.
 Qed.
@@ -481,7 +492,7 @@ Theorem C02_full_with_entities : forall bd dir base imps els e,
        end).
 Proof.
   intros bd dir base imps els e Hv Hin He f pkg.
-  destruct (C02_full bd pkg Hv) as (D & Hc & Hok).
+  destruct (C02_structural_contract bd pkg Hv) as (D & Hc & Hok).
   - exists (BJ f). split; [exact Hin|reflexivity].
   - exists D. split; [exact Hc|].
     exact (entity_contract to_snake to_camel to_screaming_snake bd dir base imps els e D Hok Hin He).
